@@ -70,6 +70,10 @@ void free_some_svalues (svalue_t * v, int num) {
 }
 
 void assign_svalue (svalue_t * dest, svalue_t * v) {
+  /* Assigning a location to itself changes nothing; releasing the old value first would free a value that only
+   * this location holds and then copy it (a[0..<1] = a; assigns every element of a to itself). */
+  if (dest == v)
+    return;
   /* First deallocate the previous value. */
   free_svalue (dest, "assign_svalue");
   assign_svalue_no_free (dest, v);
